@@ -1,6 +1,7 @@
 import BM.Proofs.RegexLemmas
 import BM.Gen.Shipped
 import BM.Spec.More
+import BM.Proofs.RegexSem
 /-
   C19: the exported attribute matchers are anchored, closed-alphabet recognisers.
   For each of the eleven matchers, on the regular expression regenerated from helpers.go on
